@@ -494,7 +494,12 @@ class Sim:
             if lm is None and j.must == 'gaveup':
                 pass          # lateness already reported once for this job
             elif lm is None:
-                self.viol({'C04', 'C01'}, 'loss_reported_without_lost_owner',
+                # (a job failed although only workers that had finished their part
+                # of it left - e.g. on schedule - is also "harm done by recycling")
+                recycled = any(self.by_pid[p].popen.returncode in (0, 155)
+                               for p in j.all_owners() if not self.by_pid[p].alive)
+                self.viol({'C04', 'C01'} | ({'C09'} if recycled else set()),
+                          'loss_reported_without_lost_owner',
                           {'job_kind': j.kind, 'owners_finished_exited':
                            bool(j.all_owners() - j.owners_unfinished())},
                           job=j.jid, msg=o[1],
@@ -503,7 +508,8 @@ class Sim:
             else:
                 vt, status, pid = lm
                 if self.clock.t - vt < j.T:
-                    self.viol({'C04'}, 'loss_reported_before_grace_period',
+                    self.viol({'C04'} | ({'C09'} if status in (0, 155) else set()),
+                              'loss_reported_before_grace_period',
                               {'job_kind': j.kind}, job=j.jid, noticed=vt,
                               now=self.clock.t, T=j.T)
                 legal = {human_status(self.by_pid[p].popen.returncode)
